@@ -24,7 +24,9 @@ CLASS_CODES = {
     "Undeclared": {"Unresolved"},
     "Duplicate": {"Duplicate"},
     "TypeMismatch": {"TypeMismatch"},
-    "NoOverload": {"AmbiguousCall", "InvalidCall", "Unresolved"},
+    # Unassociated: a uniquely named subprogram called without (all of) its actuals is reported as
+    # "No association of parameter ..." at the callee
+    "NoOverload": {"AmbiguousCall", "InvalidCall", "Unresolved", "Unassociated"},
     "UnknownField": {"Unresolved"},
     "UnknownItem": {"Unresolved"},
     "UnknownLib": {"Unresolved"},
@@ -156,7 +158,7 @@ def main(tier, replay=None):
                  % (m["blame"], m["expect"], m["fault"]),
                  dict(rp, kind="correspondence", correspondence="Sem.blame_program vs Faults.expect"), no_failing_input=True)
             continue
-        if len(coq_items) < (4 if tier == "quick" else 12) and "site_coq" in m and basepid.startswith("g"):
+        if len(coq_items) < (4 if tier == "quick" else 12) and "?" not in m.get("site_coq", "?") and basepid.startswith("g"):
             coq_items.append((base.parse_request(req_of[basepid]), m["site_coq"], en, ec))
         if o is None:
             viol("the harness returned no result for the program", rp, no_failing_input=True)
